@@ -22,6 +22,7 @@ class UKVAdapter:
         self.path = self.dir / "f.ukv"
         self.h = {}
         self.names = list(handles)
+        self.n = 0       # the equivalent public forms of a call are used in turn: put / h[k] = v, get / h[k], open / with h, close / __exit__
 
     def cleanup(self):
         for h in self.h.values():
@@ -33,6 +34,8 @@ class UKVAdapter:
 
     def apply(self, act):
         a = act["act"]
+        self.n += 1
+        alt = self.n % 2 == 0
         try:
             if a == "newx":
                 h1, h2, b0 = HDRS[act["hdr"]]
@@ -40,13 +43,23 @@ class UKVAdapter:
             elif a == "new":
                 self.h[act["h"]] = self.UKVFile(self.path, act["mode"])
             elif a == "reopen":
-                self.h[act["h"]].open(act["mode"])
+                h = self.h[act["h"]]
+                if alt and h.mode == act["mode"]:
+                    assert h.__enter__() is h          # `with h:` re-opens in the mode the handle had
+                else:
+                    h.open(act["mode"])
             elif a == "close":
-                self.h[act["h"]].close()
+                if alt:
+                    self.h[act["h"]].__exit__(None, None, None)
+                else:
+                    self.h[act["h"]].close()
             elif a == "put":
-                self.h[act["h"]].put(KEYS[act["k"]], VALS[act["v"]])
+                if alt:
+                    self.h[act["h"]][KEYS[act["k"]]] = VALS[act["v"]]
+                else:
+                    self.h[act["h"]].put(KEYS[act["k"]], VALS[act["v"]])
             elif a == "get":
-                v = self.h[act["h"]].get(KEYS[act["k"]])
+                v = self.h[act["h"]][KEYS[act["k"]]] if alt else self.h[act["h"]].get(KEYS[act["k"]])
                 return {"out": "ok", "val": val_tok(v)}
             elif a == "truncate":
                 self.h[act["h"]].truncate()
@@ -74,6 +87,17 @@ class UKVAdapter:
                     gets[key_tok(k)] = val_tok(h.get(k))
                 except Exception as e:
                     gets[key_tok(k)] = "!" + exc_name(e)
+            # items() and values() must tell the same story as get()
+            if not any(v.startswith("!") for v in gets.values()):
+                try:
+                    via_items = {key_tok(k): val_tok(v) for k, v in h.items()}
+                    via_values = sorted(val_tok(v) for v in h.values())
+                except Exception as e:
+                    via_items, via_values = {"!items": exc_name(e)}, None
+                if via_items != gets:
+                    gets = {"!items() disagrees with get()": via_items}
+                elif via_values != sorted(gets.values()):
+                    gets = {"!values() disagrees with get()": via_values}
         return {"mode": mode, "keys": keys, "hdr": hdr_tok(h.h1, h.h2, h.b0), "gets": gets}
 
     def observe(self):
